@@ -168,6 +168,37 @@ def judge(run, sets, results, model):
                     run.disagree('parse-list', case, show(o)[:200], show(m)[:200])
                 break
 
+def with_list(run, sets, exe):
+    """Schema::parse_str_with_list(main, others): when the others parse on their own, parsing main with them is
+    parsing the whole list with main last - same verdict, same schemas"""
+    lines = []
+    for si, (js, expect, shape) in enumerate(sets):
+        if len(js) < 2 or shape in ('nested', 'nested-duplicate', 'type-object', 'duplicate'):
+            continue            # order-dependent by a known finding / a main that redefines an input (registration overwrites: F25b)
+        for mi in range(len(js)):
+            others = [x for q, x in enumerate(js) if q != mi]
+            ot = ' '.join(hx(json.dumps(x)) for x in others)
+            lines.append('w%d_%d_a (parse-list %s)' % (si, mi, ot))
+            lines.append('w%d_%d_b (parse-list %s %s)' % (si, mi, ot, hx(json.dumps(js[mi]))))
+            lines.append('w%d_%d_c (parse-with-list %s %s)' % (si, mi, hx(json.dumps(js[mi])), ot))
+    out = {k: parse(v) for k, v in fw.run_lines(exe, lines).items()}
+    for si, (js, expect, shape) in enumerate(sets):
+        for mi in range(len(js)):
+            a, b, c = (out.get('w%d_%d_%s' % (si, mi, x)) for x in 'abc')
+            if a is None or b is None or c is None or tag(a) != 'ok':
+                continue
+            run.evaluations += 1
+            case = {'main': json.dumps(js[mi]), 'others': [json.dumps(x) for q, x in enumerate(js) if q != mi], 'shape': shape}
+            run.count('with-list:%s/%s' % (tag(b), tag(c)))
+            if tag(c) == 'panic':
+                run.fail('parse-list-panic', 'parse_str_with_list panicked', case)
+            elif tag(b) != tag(c):
+                run.fail('with-list-differs', 'parse_list(others + [main]) is %s, parse_str_with_list(main, others) is %s' % (tag(b), tag(c)), case)
+            elif tag(b) == 'ok' and (show(c[1]) != show(b[-1]) or [show(x) for x in c[2:]] != [show(x) for x in b[1:-1]]):
+                run.fail('with-list-differs', 'parse_str_with_list(main, others) returns other schemas than parse_list(others + [main])', case)
+            elif tag(b) == 'ok':
+                run.nontrivial_case('wl' + json.dumps(js) + str(mi))
+
 def collect(tier, seed):
     sets = gen(tier, seed)
     texts = {}
@@ -208,7 +239,8 @@ def run(tier, seed):
     run_ = fw.Run(PROP, tier, seed)
     run_.proof = fw.proof_step(PROP, THEOREMS)
     judge(run_, *collect(tier, seed))
-    return fw.finish(run_, 'theorems C20_* + permutation / repeated-run differential check of parse_list', RULE, search)
+    with_list(run_, gen(tier, seed), fw.build_harness())
+    return fw.finish(run_, 'theorems C20_* + permutation / repeated-run differential check of parse_list and parse_str_with_list', RULE, search)
 
 def explore(run_, tier, seed):
     judge(run_, *collect(tier, seed))
